@@ -9,10 +9,13 @@ from ..heap import World
 from ..regdrive import Mismatch, RegDriver, install_collide, replay_behaviour
 
 INVARIANTS = ["TypeOK", "RegExact", "IdsUnique", "IdDeterministic", "DupFaithful", "ReplaceFaithful",
-              "DcReplaceFaithful", "CKeySound"]
+              "DcReplaceFaithful", "CKeySound", "RoundTrip"]
 PROPERTIES = ["FailFrame", "Immutable", "MembershipFrame"]
 
 ALLOPS = {"new", "replace", "replace_fails", "dcreplace", "dup", "detach", "detach_self", "drop", "hold"}
+OBSERVE = ["traverse", "tree", "xpath", "pattern", "visit", "transform", "compare", "rich", "accessors",
+           "serialize", "assign"]
+SEROPS = {"new", "ser", "deser", "drop", "detach_self", "detach", "hold", "replace"}
 
 # instances: name -> (classes, prop table, nslots, max tuple, origins)
 INSTANCES = {
@@ -24,6 +27,14 @@ INSTANCES = {
     "full-3": (["Leaf", "Unary", "Many"], {("Leaf", "a"): {0, 1}}, 3, 2, {0}),
     "leaf-unary-4": (["Leaf", "Unary"], {("Leaf", "a"): {0, 1}}, 4, 1, {0}),
     "dup-4": (["Leaf", "Many"], {}, 4, 1, {0}, {"new", "dup", "detach_self", "drop", "replace"}, 6),
+    "observe-org-2": (["Leaf", "Unary"], {}, 2, 1, {0, 1}, {"new", "observe", "detach_self", "drop"}, 4),
+    "observe-3": (["Leaf", "Unary", "Many"], {}, 3, 1, {0}, {"new", "observe", "detach_self", "detach", "drop", "replace", "dup"}, 5),
+    "observe-4": (["Leaf", "SubLeaf", "Unary", "Many"], {}, 4, 2, {0}, {"new", "observe", "detach_self", "drop", "replace"}, 5),
+    "ser-3": (["Leaf", "Unary"], {}, 3, 1, {0}, SEROPS),
+    "ser-3q": (["Leaf", "Unary"], {}, 3, 1, {0}, {"new", "ser", "deser", "drop", "dropall", "detach_self"}, 7),
+    "ser-many-3q": (["Leaf", "Many"], {}, 3, 2, {0}, {"new", "ser", "deser", "drop", "dropall", "detach_self"}, 6),
+    "ser-many-4": (["Leaf", "Many"], {}, 4, 2, {0}, {"new", "ser", "deser", "dropall", "detach_self"}, 6),
+    "ser-4": (["Leaf", "Unary"], {("Leaf", "a"): {0, 1}}, 4, 1, {0}, SEROPS, 8),
     "dup-5": (["Leaf", "Unary", "Many"], {}, 5, 1, {0}, {"new", "dup", "detach_self", "drop"}, 6),
     "many-4": (["Leaf", "Many"], {}, 4, 2, {0}),
 }
@@ -38,7 +49,7 @@ def make_instance(chk, name, collide, emit, depth=None, condpop=True):
         "I_Registry", "Gen_Registry",
         dict(Slots="@mv:" + ",".join(f"s{i}" for i in range(1, nslots + 1)), MaxTuple=mt,
              GenClasses=set(classes), Origins=set(orgs), PropAtoms="@op:PA", Collide=collide,
-             CondPop=condpop, MaxDepth=depth, Ops=set(ops_on)),
+             CondPop=condpop, MaxDepth=depth, Ops=set(ops_on), MaxBlobs=1, ForceTaken=False, ObserveKinds=set(OBSERVE if 'observe' in ops_on else [])),
         ops=[inst.prop_atoms_def("PA", ptab, {0})],
         invariants=INVARIANTS, properties=PROPERTIES, symmetry="Sym", view="view",
         constraints=["Bound"], action_constraints=["EmitAct"] if emit else [])
@@ -82,14 +93,20 @@ def _replay(chunk, arg):
         n += 1
         if len(beh["steps"]) >= 3:
             nontriv.add(hash(raw if isinstance(raw, str) else json.dumps(beh["steps"], sort_keys=True)))
-        try:
-            replay_behaviour(W, beh, canon, arg["collide"])
-        except Mismatch as m:
-            viol.append((m.clause, m.detail, {"m": "registry", "collide": arg["collide"], "poolset": arg["poolset"],
-                                              "steps": beh["steps"], "post": beh["post"], "ret": beh["ret"]}))
+        fmts = ["dict"]
+        if any(e["op"] == "deser" for e in beh["steps"]):
+            fmts = FORMATS
+        for fmt in fmts:
+            try:
+                replay_behaviour(W, beh, canon, arg["collide"], fmt)
+            except Mismatch as m:
+                viol.append((m.clause, m.detail, {"m": "registry", "collide": arg["collide"], "poolset": arg["poolset"], "fmt": fmt,
+                                                  "steps": beh["steps"], "post": beh["post"], "ret": beh["ret"]}))
     install_collide(False)
     return viol, n, nontriv, (beh["steps"] if n else None)
 
+
+FORMATS = ["dict", "json", "msgpack", "yaml"]
 
 # which clauses belong to which property
 CLAUSES = {
@@ -98,13 +115,18 @@ CLAUSES = {
     "C14": {"dup-structure", "replace-unchanged-field", "dcreplace-unchanged-field", "replace-changed-field",
             "dcreplace-changed-field", "replace-class", "dcreplace-class", "class", "prop-value", "child-identity",
             "origin", "registered", "id-partition", "id-deterministic"},
-    "C10": {"frame-C10"},
+    "C10": {"frame-C10", "assign-should-raise", "registered", "lookup", "id-partition", "not-collected", "liveness",
+            "class", "prop-value", "child-identity", "origin"},
+    "C04": {"deser-raised", "deser-structure", "deser-identity", "class", "prop-value", "child-identity", "origin", "registered",
+            "lookup", "id-partition", "liveness", "not-collected"},
 }
 
 
 def op_filter(pid: str, beh: dict) -> bool:
     if pid == "C14":
         return beh["ret"]["op"] in ("dup", "replace", "dcreplace")
+    if pid == "C04":
+        return beh["ret"]["op"] == "deser"
     return True
 
 
@@ -134,7 +156,7 @@ def run_machine(chk: core.Check, pid: str, quick_instances, thorough_instances, 
                 chk.sample({"instance": name, "collide": collide, "behaviour": smp}, limit=3)
     chk.exhaustive = True
     # deeper / wider: simulation of a 4-slot instance
-    for collide in (False, True):
+    for collide in ((False, True) if sim_instance else ()):
         raw = simulate(chk, sim_instance, collide, num=150 if quick else 2000, depth=14, seed=chk.seed)
         _absorb(chk, pid, core.parallel(_replay, raw, {"collide": collide, "poolset": "adversarial", "pid": pid}, chunk=1000))
 
@@ -145,7 +167,7 @@ def replay(chk: core.Check, data: dict, pid: str):
     install_collide(case.get("collide", False))
     W = World(zoo.BASIC, case.get("poolset", "plain"))
     try:
-        replay_behaviour(W, case, {}, case.get("collide", False))
+        replay_behaviour(W, case, {}, case.get("collide", False), case.get("fmt", "dict"))
     except Mismatch as m:
         chk.add(core.Violation(m.clause, case, m.detail))
     finally:
@@ -169,14 +191,13 @@ def _alpha(drv: RegDriver, W: World) -> dict:
                 p[f["n"]] = 0 if val == 7 else 99
                 continue
             pool = W_pool(W, f)
-            idx = [i for i, x in enumerate(pool) if type(x) is type(val) and x == val]
+            idx = [i for i, x in enumerate(pool) if type(x) is type(val) and x == val and repr(x) == repr(val)]
             p[f["n"]] = idx[0] if idx else 99
         k = {}
         for f in W.zi.child_fields(c):
             v = getattr(o, f["n"])
             k[f["n"]] = [drv.name_of(x) for x in v] if isinstance(v, tuple) else drv.name_of(v)
-        org = [i for i, x in enumerate(W.origins) if x is o.origin]
-        objs[s] = {"c": c, "p": p, "k": k, "o": org[0] if org else 99}
+        objs[s] = {"c": c, "p": p, "k": k, "o": origin_atom(W, o.origin)}
     ss = sorted(live)
     return {
         "live": ss,
@@ -185,6 +206,22 @@ def _alpha(drv: RegDriver, W: World) -> dict:
         "look": {s: drv.name_of(drv.ASTNode.get_any(live[s].id)) for s in ss},
         "sameid": [[a, b] for a in ss for b in ss if a != b and live[a].id == live[b].id],
     }
+
+
+def origin_atom(W: World, org) -> int:
+    """index of the pool origin that `org` equals (same type, same singletons); 99 if none"""
+    from pyoak.origin import NO_ORIGIN, NO_POSITION, NO_SOURCE
+    for i, x in enumerate(W.origins):
+        if x is org:
+            return i
+    if isinstance(org, type(NO_ORIGIN)) or org is NO_ORIGIN:
+        return 99   # a NoOrigin that is not the singleton
+    for i, x in enumerate(W.origins):
+        if type(x) is type(org) and x == org and (x.source is NO_SOURCE) == (org.source is NO_SOURCE) \
+                and (x.position is NO_POSITION) == (org.position is NO_POSITION) \
+                and type(x.source) is type(org.source) and type(x.position) is type(org.position):
+            return i
+    return 99
 
 
 def W_pool(W: World, f: dict):
@@ -199,7 +236,9 @@ def _record_registry(chunk, arg):
     W = World(zoo.BASIC, "plain")
     zi = W.zi
     lines = []
-    classes = ["Leaf", "SubLeaf", "Unary", "Opt", "Bin", "Many", "SubMany", "Pair", "FLeaf", "FUnary"]
+    classes = ["Leaf", "SubLeaf", "Unary", "Opt", "Bin", "Many", "SubMany", "Pair", "FLeaf", "FUnary", "Rich"]
+    norg = len(W.origins)
+    ser_on = arg.get("ser", False)
     for tid, seed, digest in chunk:
         rng = random.Random(seed)
         old = cfg.ID_DIGEST_SIZE
@@ -208,11 +247,10 @@ def _record_registry(chunk, arg):
             drv = RegDriver(W, {})
             lines.append({"tid": tid, "seq": 0, "op": "init", "inj": digest >= 8})
             counter = 0
-            bases: dict[str, int] = {}
+            nblobs = 0
 
             def base_of(o):
-                b = o.id.split("_")[0]
-                return bases.setdefault(b, len(bases))
+                return o.id.split("_")[0]
 
             def fresh():
                 nonlocal counter
@@ -227,11 +265,11 @@ def _record_registry(chunk, arg):
                 ev = None
                 if r < 0.35 or not held:
                     c = rng.choice(classes)
-                    rec = {"c": c, "p": {}, "k": {}, "o": rng.randrange(3)}
+                    rec = {"c": c, "p": {}, "k": {}, "o": rng.randrange(norg)}
                     ok = True
                     for f in zi.fields(c):
                         if f["kind"] == "prop":
-                            rec["p"][f["n"]] = 0 if not f["init"] else rng.randrange(3)
+                            rec["p"][f["n"]] = 0 if not f["init"] else rng.randrange(len(W_pool(W, f)))
                             continue
                         def pick(allowed):
                             av = [s for s in sorted(mirror) if mirror[s] in allowed]
@@ -271,7 +309,7 @@ def _record_registry(chunk, arg):
                     chg = ["none", "", 0]
                     if kind == "prop":
                         f = rng.choice(pf)
-                        chg = ["prop", f["n"], rng.randrange(3)]
+                        chg = ["prop", f["n"], rng.randrange(len(W_pool(W, f)))]
                     elif kind == "kid":
                         f = rng.choice(cf)
                         def pick2(allowed):
@@ -306,6 +344,14 @@ def _record_registry(chunk, arg):
                     ev = {"op": "detach", "src": rng.choice(held)}
                 elif r < 0.75:
                     ev = {"op": "detach_self", "src": rng.choice(held), "popped": None}
+                elif ser_on and r < 0.80:
+                    ev = {"op": "ser", "src": rng.choice(held), "blob": nblobs + 1}
+                    nblobs += 1
+                elif ser_on and r < 0.88 and nblobs:
+                    ev = {"op": "deser", "blob": rng.randrange(1, nblobs + 1), "fmt": rng.choice(FORMATS),
+                          "via_root_class": rng.random() < 0.5, "cbases": False}
+                elif ser_on and r < 0.90:
+                    ev = {"op": "dropall"}
                 elif r < 0.90:
                     ev = {"op": "drop", "src": rng.choice(held)}
                 else:
@@ -319,7 +365,27 @@ def _record_registry(chunk, arg):
                     o = drv.get(ev["src"])
                     ev["popped"] = bool(o.detach_self())
                     o = None
-                    drv_ev = None
+                elif ev["op"] == "deser":
+                    # the recorder names what the library created: new nodes in post-order
+                    pl = drv.payloads[ev["blob"]]
+                    cls = pl["cls"] if ev["via_root_class"] else drv.ASTNode
+                    fmt = ev["fmt"]
+                    try:
+                        res = (cls.as_obj(pl["dict"]) if fmt == "dict" else cls.from_json(pl["json"]) if fmt == "json"
+                               else cls.from_msgpck(pl["msgpack"]) if fmt == "msgpack" else cls.from_yaml(pl["yaml"]))
+                    except Exception as ex:
+                        lines.append({"tid": tid, "seq": seq, "op": "driver-mismatch", "clause": "deser-raised",
+                                      "detail": f"{fmt}: {type(ex).__name__}: {ex}", "inj": digest >= 8, "ev": ev})
+                        break
+                    order: list = []
+                    drv._postorder_unnamed(res, order, set())
+                    ev["news"] = [fresh() for _ in order]
+                    for s_, n_ in zip(ev["news"], order):
+                        drv.put(s_, n_, hold=False)
+                    ev["res"] = drv.name_of(res)
+                    ev["bases"] = [base_of(n_) for n_ in order]
+                    drv.strong[ev["res"]] = res
+                    res = order = n_ = s_ = pl = None
                 else:
                     try:
                         drv.check_frame = True
@@ -332,7 +398,7 @@ def _record_registry(chunk, arg):
                     ev["bases"] = [base_of(drv.get(ev["res"]))]
                 elif ev["op"] == "dup":
                     ev["bases"] = [base_of(drv.get(s)) for s in ev["news"]]
-                else:
+                elif ev["op"] != "deser":
                     ev["bases"] = []
                 import gc as _gc
                 _gc.collect()
@@ -362,7 +428,7 @@ def trace_validate(chk: core.Check, lines: list, name="regtrace"):
             fh.write(json.dumps(ln) + "\n")
     mod, cfg = inst.instance(
         "I_TraceRegistry", "Trace_Registry",
-        dict(Slots=set(), MaxTuple=0, GenClasses=set(), Origins=set(), PropAtoms="@op:PA", Collide=False, CondPop=True, Ops=set()),
+        dict(Slots=set(), MaxTuple=0, GenClasses=set(), Origins=set(), PropAtoms="@op:PA", Collide=False, CondPop=True, Ops=set(), MaxBlobs=0, ForceTaken=False, ObserveKinds=set()),
         ops=["PA(c, f) == {}"], invariants=["TraceRegExact", "TraceIdsUnique"], postcondition="Done", init="TInit", next_="TNext",
         extra_cfg=["CHECK_DEADLOCK FALSE"])
     (chk.wd / "I_TraceRegistry.tla").write_text(mod)
@@ -382,11 +448,11 @@ def trace_validate(chk: core.Check, lines: list, name="regtrace"):
     return rej
 
 
-def run_traces(chk: core.Check, pid: str, ntraces: int, steps: int):
+def run_traces(chk: core.Check, pid: str, ntraces: int, steps: int, ser: bool = False):
     rng = random.Random(chk.seed + 17)
     jobs = [(i, rng.randrange(1 << 30), [8, 8, 2, 1][i % 4]) for i in range(ntraces)]
     lines = []
-    for ls in core.parallel(_record_registry, jobs, {"steps": steps}, chunk=max(1, ntraces // 32)):
+    for ls in core.parallel(_record_registry, jobs, {"steps": steps, "ser": ser}, chunk=max(1, ntraces // 32)):
         lines.extend(ls)
     # driver-detected mismatches (frame condition, unchanged fields) are violations by themselves
     judged = []
@@ -403,6 +469,8 @@ def run_traces(chk: core.Check, pid: str, ntraces: int, steps: int):
         ln = judged[i - 1]
         if pid == "C14" and ln["op"] not in ("dup", "replace", "dcreplace"):
             continue
+        if pid == "C04" and ln["op"] != "deser":
+            continue
         bad_tids.add(ln["tid"])
         prefix = [x for x in judged if x["tid"] == ln["tid"] and x["seq"] <= ln["seq"]]
         chk.add(core.Violation("trace:" + why.strip(" >"), {"m": "registry-trace", "lines": prefix},
@@ -412,3 +480,105 @@ def run_traces(chk: core.Check, pid: str, ntraces: int, steps: int):
     chk.notes["recorded_steps_validated"] = chk.notes.get("recorded_steps_validated", 0) + len(judged)
     if judged:
         chk.sample({"recorded_event": {k: v for k, v in judged[min(5, len(judged) - 1)].items() if k != "post"}})
+
+
+# ---------------------------------------------------------------------------------------------
+# C04: a fresh process that receives only the payload
+
+
+def fresh_process(chk: core.Check, ntrees: int):
+    import base64
+    import os
+    import subprocess
+    import sys
+
+    from ..gen import random_heap
+    from ..heap import slot_order
+    core.use_repo()
+    from pyoak.origin import SOURCE_OPTIMIZED_SERIALIZATION_KEY, Source
+    W = World(zoo.BASIC, "plain")
+    zi = W.zi
+    rng = random.Random(chk.seed + 99)
+    jobs = []
+    classes = ["Leaf", "SubLeaf", "Unary", "Opt", "Bin", "Many", "SubMany", "Pair", "Rich", "FLeaf"]
+    keep = []
+    for t in range(ntrees):
+        h = random_heap(rng, zi, rng.randrange(1, 9), classes, max_tuple=3, share=0.2, norigins=len(W.origins))
+        for s, r in h.items():          # rich atoms over the whole pools
+            for f in zi.prop_fields(r["c"]):
+                if f["init"]:
+                    r["p"][f["n"]] = rng.randrange(len(W_pool(W, f)))
+        twins = W.build(h) if rng.random() < 0.5 else None    # registered twins => collision suffixes
+        objs = W.build(h)
+        root = slot_order(h)[-1]
+        o = objs[root]
+        payload = {"root": root, "h": {}}
+        for s in slot_order(h):
+            if s not in _reach(h, root, zi):
+                continue
+            x = objs[s]
+            b, _, n = x.id.partition("_")
+            payload["h"][s] = {"c": h[s]["c"], "p": h[s]["p"], "k": h[s]["k"], "o": h[s]["o"], "idb": b, "idn": int(n or 0)}
+        for fmt in ("dict", "json", "msgpack", "yaml", "json-idx"):
+            if fmt == "dict":
+                try:
+                    data = json.dumps(o.as_dict()).encode()
+                except TypeError:
+                    continue     # a dict payload may hold values plain JSON cannot carry; the other formats cover them
+            elif fmt == "json":
+                data = o.to_jsonb()
+            elif fmt == "msgpack":
+                data = o.to_msgpck()
+            elif fmt == "yaml":
+                data = o.to_yaml().encode()
+            else:
+                data = o.to_jsonb(serialization_options={SOURCE_OPTIMIZED_SERIALIZATION_KEY: True})
+            job = {"tid": len(jobs), "fmt": fmt, "cls": h[root]["c"], "via_root_class": rng.random() < 0.5,
+                   "data": base64.b64encode(data).decode(), "payload": payload}
+            if fmt == "json-idx":
+                job["sources"] = Source.all_as_dict()
+            jobs.append(job)
+        keep.append((twins, objs))
+    jf = chk.wd / "fresh_jobs.json"
+    of = chk.wd / "fresh_out.ndjson"
+    jf.write_text(json.dumps(jobs))
+    env = dict(os.environ, PYTHONHASHSEED=str(chk.seed % 1000 + 3), PYTHONPATH=str(core.VERIF))
+    p = subprocess.run([sys.executable, "-m", "harness.fresh", str(jf), str(of)], cwd=core.VERIF, env=env,
+                       capture_output=True, text=True, timeout=1800)
+    if p.returncode != 0:
+        raise tlc.MachineryError("fresh process failed:\n" + p.stderr[-3000:])
+    lines = [json.loads(x) for x in of.read_text().splitlines()]
+    judged = []
+    for ln in lines:
+        if ln["op"] == "driver-mismatch":
+            chk.add(core.Violation(ln["clause"], {"m": "fresh-process", "line": ln}, ln["detail"]))
+        else:
+            judged.append(ln)
+    rej = trace_validate(chk, judged, "fresh")
+    bad = set()
+    for i, why in rej.items():
+        ln = judged[i - 1]
+        bad.add(ln["tid"])
+        chk.add(core.Violation("fresh-process:" + why.strip(" >"),
+                               {"m": "fresh-process", "lines": [x for x in judged if x["tid"] == ln["tid"]]},
+                               f"payload {ln.get('fmt')} deserialized in a fresh process differs from the payload: {why}"))
+    chk.traces_accepted += len({ln["tid"] for ln in judged}) - len(bad)
+    chk.evaluations += len(judged)
+    chk.notes["fresh_process_payloads"] = len(jobs)
+    del keep
+
+
+def _reach(h, root, zi):
+    out = set()
+
+    def go(s):
+        if s in out:
+            return
+        out.add(s)
+        for f in zi.child_fields(h[s]["c"]):
+            v = h[s]["k"][f["n"]]
+            for t in (v if isinstance(v, list) else [v]):
+                if t != "none":
+                    go(t)
+    go(root)
+    return out
